@@ -26,6 +26,7 @@ fn build_suite(name: &str, params: &Value) -> Box<dyn Suite + Send + Sync> {
             max_len: params["max_len"].as_u64().unwrap_or(40) as u32,
             count: params["count"].as_u64().unwrap(),
             seed: params["seed"].as_u64().unwrap_or(0),
+            raw: params["raw"].as_bool().unwrap_or(false),
         }),
         "seeds" => Box::new(Seeds { seeds: load_seeds(&seeds_path) }),
         "truncations" => Box::new(Truncations::new(load_seeds(&seeds_path), params["stride"].as_u64().unwrap_or(1) as usize)),
@@ -208,6 +209,8 @@ fn main() {
             let (n, bad) = match args[2].as_str() {
                 "lex" => replay::replay_lex(&args[3], &mut out),
                 "passes" => replay::replay_passes(&args[3], &mut out),
+                "mlstring" => replay::replay_mlstring(&args[3], &mut out),
+                "comment" => replay::replay_comment(&args[3], &mut out),
                 k => panic!("unknown replay kind {k}"),
             };
             let _ = out.flush();
